@@ -257,18 +257,16 @@ def episode_child(check, base_seed, indices, selftest_n, sample_idx, wfd, system
         if hasattr(check, "setup_process"):
             check.setup_process()
         for idx in indices:
-            prefix = None
-            if systematic is not None:
-                # a check may spread its systematic prefix cases over every STRIDE-th index, so that a reduced run
-                # count (VERIF_CASES) still mixes systematic and drawn cases
-                stride = getattr(check, "SYSTEMATIC_STRIDE", 1)
-                if idx % stride == 0 and idx // stride < len(systematic):
-                    prefix = systematic[idx // stride]
+            # (a check may spread its systematic prefix cases over every STRIDE-th index, so that a reduced run count
+            #  - VERIF_CASES - still mixes systematic and drawn cases)
+            prefix = case_prefix(check, systematic, idx)
             try:
                 run_case(check, base_seed, idx, agg, selftest_n, idx in sample_idx, prefix)
             except BaseException:
                 agg.errors.append(f"case {idx}: harness exception\n{traceback.format_exc()}")
-                break
+                if len(agg.errors) >= 5:
+                    break
+                continue
             if agg.hang_seen:
                 break
         if hasattr(check, "teardown_process"):
@@ -450,6 +448,98 @@ def in_child(fn, wall_s):
     return res
 
 
+def case_prefix(check, systematic, idx):
+    if systematic is None:
+        return None
+    stride = getattr(check, "SYSTEMATIC_STRIDE", 1)
+    if idx % stride == 0 and idx // stride < len(systematic):
+        return systematic[idx // stride]
+    return None
+
+
+def run_case_sequence(check, base_seed, indices, systematic, render=False):
+    """Execute the given cases one after the other in THIS process (as an episode does) and return what the last one
+    reported: {"kind", "sig", "message", "digest", "trace"}. Used when a violation needs the history of its episode."""
+    if hasattr(check, "setup_process"):
+        check.setup_process()
+    last = None
+    for n, idx in enumerate(indices):
+        agg = Agg()
+        is_last = n == len(indices) - 1
+        ch = Choices(prefix=case_prefix(check, systematic, idx) or (), seed=case_seed(base_seed, check.ID, idx), trace=False)
+        out = guarded_run(check, ch, render=is_last and render)
+        vio = None
+        if out.violation is not None:
+            vio = out
+        elif out.fanout is not None:
+            pos, nf = out.fanout
+            base = list(ch.rec[:pos])
+            for v in range(nf):
+                if v == ch.rec[pos]:
+                    continue
+                ch2 = Choices(prefix=base + [v], seed=derive_seed(case_seed(base_seed, check.ID, idx), "fan", v))
+                o2 = guarded_run(check, ch2, render=is_last and render)
+                if o2.violation is not None:
+                    vio = o2
+                    break
+        last = vio if vio is not None else out
+    if hasattr(check, "teardown_process"):
+        check.teardown_process()
+    return {"kind": last.violation, "sig": last.sig, "message": last.message, "digest": log_digest(last.log), "trace": last.sample}
+
+
+def episode_replay(check, viol, base_seed, episode_size, systematic):
+    """A violation that does not reproduce from its own choice list alone: re-run the cases of its episode that came
+    before it, in order, in one fresh process; shrink that list of predecessors; write a replay file of kind 'episode'."""
+    idx = viol["index"]
+    start = (idx // episode_size) * episode_size
+    indices = list(range(start, idx + 1))
+    kind = viol["kind"]
+
+    def fails(ixs):
+        try:
+            res = in_child(lambda: run_case_sequence(check, base_seed, ixs, systematic), _wall(check) * 2 + 10 * len(ixs) + 60)
+        except RuntimeError:
+            return False
+        return res["kind"] == kind
+    if not fails(indices):
+        return None, None
+    # delta-debug the predecessors (the failing case itself stays last)
+    pred = indices[:-1]
+    n = 2
+    deadline = time.monotonic() + 90
+    while len(pred) >= 1 and time.monotonic() < deadline:
+        chunk = max(1, len(pred) // n)
+        reduced = False
+        for i in range(0, len(pred), chunk):
+            cand = pred[:i] + pred[i + chunk:]
+            if fails(cand + [idx]):
+                pred = cand
+                n = max(n - 1, 2)
+                reduced = True
+                break
+        if not reduced:
+            if chunk == 1:
+                break
+            n = min(len(pred), n * 2)
+    final = pred + [idx]
+    res = in_child(lambda: run_case_sequence(check, base_seed, final, systematic, render=True), _wall(check) * 2 + 10 * len(final) + 60)
+    outdir = os.path.join(os.environ.get("VERIF_OUT_DIR") or os.path.join(VERIF_DIR, "out"), "replays")
+    os.makedirs(outdir, exist_ok=True)
+    path = os.path.join(outdir, f"{check.ID}-{idx}-{res['kind'] or 'none'}-episode-{h64(final) & 0xFFFFFF:06x}.json")
+    doc = {
+        "property": check.ID, "kind": res["kind"], "sig": res["sig"], "message": res["message"], "verif_seed": base_seed,
+        "case_index": idx, "episode": {"case_indices": final, "original_predecessors": len(indices) - 1},
+        "choices": [], "log_digest": res["digest"], "trace": res["trace"], "repo_rev": repo_rev(),
+        "note": ("this violation does not reproduce from its own choice list in a fresh process; it needs the listed earlier "
+                 "cases of its episode to have run in the same process first (state carried between runs: the replay re-executes "
+                 "the cases in order; each case is fully determined by verif_seed, the check id and its index)"),
+    }
+    with open(path, "w") as f:
+        json.dump(doc, f, indent=1, default=str)
+    return path, doc
+
+
 def minimise(check, viol, budget_s=60, max_execs=2000):
     """Shrink the choice list of a violation; each re-execution in a fresh fork when the check
     says process state matters (ISOLATE), otherwise in one forked child."""
@@ -472,7 +562,10 @@ def minimise(check, viol, budget_s=60, max_execs=2000):
                 except RuntimeError:
                     return False, c
                 return v == kind, rec
-            o, chx = replay_choices(check, c)
+            try:
+                o, chx = replay_choices(check, c)
+            except Exception:      # noqa: BLE001 -- a candidate that makes the harness itself fail is simply not kept
+                return False, c
             return o.violation == kind, chx.rec
 
         deadline = time.monotonic() + budget_s
@@ -656,12 +749,14 @@ def main_check(check, argv):
             doc = json.load(f)
 
         def job():
+            if doc.get("episode"):
+                return run_case_sequence(check, int(doc["verif_seed"]), doc["episode"]["case_indices"], systematic, render=True)
             if hasattr(check, "setup_process"):
                 check.setup_process()
             o, chx = replay_choices(check, doc["choices"], render=True)
             return {"kind": o.violation, "sig": o.sig, "message": o.message, "digest": log_digest(o.log),
                     "trace": o.sample}
-        res = in_child(job, _wall(check) * 2 + 60)
+        res = in_child(job, _wall(check) * 2 + 60 + (10 * len(doc["episode"]["case_indices"]) if doc.get("episode") else 0))
         if "--machine" in argv:
             print("REPLAY-RESULT " + json.dumps({"kind": res["kind"], "digest": res["digest"], "sig": res["sig"]}))
         else:
@@ -742,7 +837,26 @@ def main_check(check, argv):
             if v["kind"] in seen or len(seen) >= 3:
                 continue
             seen.add(v["kind"])
-            minimal, execs, err = minimise(check, v, budget_s=int(os.environ.get("VERIF_SHRINK_S", cfg.get("shrink_s", 60))))
+            # does it reproduce from its own choice list in a fresh process at all? (a one-off - a stall of the machine, a
+            # transient resource failure - or a violation that needs its episode's history does not; only a reproducing
+            # one is worth shrinking)
+            def _once(c=v["choices"]):
+                if hasattr(check, "setup_process"):
+                    check.setup_process()
+                o, _chx = replay_choices(check, c)
+                return o.violation
+            standalone = False
+            for _try in range(2):
+                try:
+                    if in_child(_once, _wall(check) * 2 + 60) == v["kind"]:
+                        standalone = True
+                        break
+                except RuntimeError:
+                    pass
+            if standalone:
+                minimal, execs, err = minimise(check, v, budget_s=int(os.environ.get("VERIF_SHRINK_S", cfg.get("shrink_s", 60))))
+            else:
+                minimal, execs, err = list(v["choices"]), 0, "did not reproduce stand-alone"
             try:
                 path, doc = write_replay(check, v, minimal, base_seed,
                                          note=f"minimised with {execs} re-executions" + (f"; {err}" if err else ""))
@@ -753,8 +867,17 @@ def main_check(check, argv):
             if doc["kind"] is None:
                 # minimised list no longer fails?? fall back to original
                 path, doc = write_replay(check, v, v["choices"], base_seed, note="unminimised (shrink result did not fail)")
+            if doc["kind"] is None:
+                # it does not fail stand-alone at all: it needs what earlier runs of its episode left behind in the process
+                epath, edoc = episode_replay(check, v, base_seed, cfg["episode"], systematic)
+                if epath is None:
+                    print(f"HARNESS-ERROR the violation found at case {v['index']} ({v['kind']}) reproduces neither from its own "
+                          f"choice list nor from its episode prefix; not reporting it", file=sys.stderr)
+                    rc = 2
+                    continue
+                path, doc, execs = epath, edoc, 0
             res, proc = confirm_in_fresh_interpreter(check, path)
-            if res is None or res["kind"] != doc["kind"] or res["digest"] != doc["log_digest"]:
+            if res is None or res["kind"] is None or res["kind"] != doc["kind"] or res["digest"] != doc["log_digest"]:
                 print(f"HARNESS-ERROR replay of {path} did not reproduce in a fresh interpreter "
                       f"(got {res}); not reporting it as a violation", file=sys.stderr)
                 if proc is not None:
@@ -762,7 +885,11 @@ def main_check(check, argv):
                 rc = 2
                 continue
             print(f"violation kind={doc['kind']}: {doc['message']}")
-            print(f"  case={v['index']} choices {len(v['choices'])} -> {len(doc['choices'])} after {execs} re-executions")
+            if doc.get("episode"):
+                print(f"  case={v['index']}: needs earlier cases of its episode in the same process; minimal sequence of cases "
+                      f"{doc['episode']['case_indices']}")
+            else:
+                print(f"  case={v['index']} choices {len(v['choices'])} -> {len(minimal)} after {execs} re-executions")
             print(f"VIOLATION property={check.ID} replay={path}")
             reported += 1
         if reported:
@@ -790,5 +917,6 @@ def main_check(check, argv):
           f"schedules={len(agg.scheds) * DISTINCT_SAMPLE} violations_found={agg.n_violations} reported={reported} "
           f"wall={wall:.1f}s rate={int(agg.evaluations / max(batch_wall, 1e-6) * 3600)}/h evidence={path}", flush=True)
     if truncated:
-        print(f"note: {truncated} cases not run because of the wall cap", flush=True)
+        print(f"note: {truncated} cases not run (wall cap, or the batch was cut short after a run tripped the wall-clock backstop)",
+              flush=True)
     return rc
